@@ -1,5 +1,6 @@
 import DispatchVerif.Core.IoP4
 import DispatchVerif.Core.IoW2
+import DispatchVerif.Core.IoWCut
 import DispatchVerif.Core.IoCh
 import DispatchVerif.Core.IoHold
 import DispatchVerif.Core.StreamP
@@ -60,6 +61,16 @@ theorem write_conservation (regs : List (List IoW.Byte)) (low high chunk : Nat) 
     (r.2.2 = true → ∃ pre c, r.2.1 = pre ++ [c] ∧ c.2.done = true ∧ ∀ x ∈ pre, x.2.done = false) ∧
     (r.2.2 = false → ∀ x ∈ r.2.1, x.2.done = false) :=
   IoW.write_conservation regs low high chunk hne hd hh hc os hleg
+
+/-- **conservation when the write is completed by the cleanup after its descriptor failed** (another operation got EBADF): one final
+    call with the descriptor's error and exactly the bytes that were not written (F42 as repaired); as found the same state gave
+    "done, no error, nothing unwritten" -/
+theorem write_cut_short_conservation {orig : List IoW.Byte} {op : IoW.Op} (h : IoW.Inv orig op false) (hlt : op.total < op.length)
+    (he : op.err = 0) (fdErr : Nat) (hf : fdErr ≠ 0) :
+    IoW.cutShort true op fdErr = [⟨true, some (orig.drop op.total), fdErr⟩] :=
+  IoW.cut_short_conservation h hlt he fdErr hf
+theorem F42_as_found {op : IoW.Op} (he : op.err = 0) (fdErr : Nat) : IoW.cutShort false op fdErr = [⟨true, none, 0⟩] :=
+  IoW.cut_short_as_found (orig := []) he fdErr
 
 /-- never a zero-length write while bytes remain -/
 theorem write_len_pos {orig : List IoW.Byte} {op : IoW.Op} (h : IoW.Inv orig op true) (hlt : op.total < op.length) :
